@@ -535,13 +535,24 @@ def c40(ctx):
     import random
     ctx.rule = ("TLC model-checks the reference-counting design (module RC: counts equal referrers, cascading release, a "
                 "quiescent caller leaves no live object; a variant without cascading release must be refuted); the "
-                "workload is a seeded sample of the cases of 12 generator models (construction, substitution, "
+                "same state machine is simulated and every history of 14 handle operations (node construction over live "
+                "arguments, copy, destruction, assignment from a handle and from a reference to an argument stored in the "
+                "pointee; wrong release-first assignment refuted) is replayed on real RCP<const Basic> handles, TLC replaying "
+                "the recorded history on module RC and comparing every use_count and the live-object count after every "
+                "operation; the leak workload is a seeded sample of the cases of 15 generator models (construction, substitution, "
                 "differentiation, polynomials, matrices, sets, solving, series, parsing, printing, serialization, C "
                 "API), every case replayed twice in a row; TLC validates that the live-object count (hook H2) is "
                 "unchanged across the repeated run of every case; crashes and (thorough tier: ASan+UBSan+LeakSanitizer "
                 "build) sanitizer reports are attributed to the case")
     ctx.model_check("RC", cfg="RC.cfg")
     ctx.model_check("RC", cfg="RCNeg.cfg", expect_violation=True)
+    ctx.model_check("RC", cfg="RCNeg2.cfg", expect_violation=True)
+    # handle semantics: histories simulated from the state machine (invariants checked in every state), replayed on real
+    # RCP<const Basic> handles; TLC replays each recorded history on module RC and compares every count
+    hcfg = "asan" if ctx.thorough else "base"
+    hist = ctx.gen("MC_RCH", simulate="num=%d" % (4000 if ctx.thorough else 600), extra=("-depth", "15"), workers=4)
+    hev = ctx.drive(hcfg, hist)
+    ctx.judge(ctx.validate("Trace_RC", hev, floor=0.9), hist)
     rnd = random.Random(ctx.seed)
     per = 400 if ctx.thorough else 90
     rows = []
